@@ -1204,12 +1204,52 @@ func ruleOrder(c *Ctx, r *Rep) {
 			return l
 		}
 		assigned := map[int64]bool{} // the kinds the planner gives to the entries it appends
-		for _, f := range c.Funcs {
-			for _, fs := range storesIntoType(c, f, "db.Change") {
-				if k, ok := fs.val().(*ssa.Const); ok && fs.field == "Change" && k.Value != nil {
-					assigned[k.Int64()] = true
+		var kindsOf func(v ssa.Value, depth int)
+		kindsOf = func(v ssa.Value, depth int) {
+			if depth > 4 {
+				return
+			}
+			switch x := v.(type) {
+			case *ssa.Const:
+				if x.Value != nil {
+					assigned[x.Int64()] = true
+				}
+			case *ssa.Phi:
+				for _, e := range x.Edges {
+					kindsOf(e, depth+1)
+				}
+			case *ssa.Call:
+				// the kind chosen by a helper: the constants it can answer
+				if h := x.Call.StaticCallee(); h != nil && c.InModule(h) && h.Blocks != nil {
+					for _, ret := range returnsOf(h) {
+						for _, res := range retResults(ret) {
+							if types.Identical(res.Type(), ct) {
+								kindsOf(res, depth+1)
+							}
+						}
+					}
+				}
+			case *ssa.Extract:
+				if call, ok := x.Tuple.(*ssa.Call); ok {
+					if h := call.Call.StaticCallee(); h != nil && c.InModule(h) && h.Blocks != nil {
+						for _, ret := range returnsOf(h) {
+							if rr := retResults(ret); x.Index < len(rr) {
+								kindsOf(rr[x.Index], depth+1)
+							}
+						}
+					}
 				}
 			}
+		}
+		for _, f := range c.Funcs {
+			for _, fs := range storesIntoType(c, f, "db.Change") {
+				if fs.field == "Change" {
+					kindsOf(fs.val(), 0)
+				}
+			}
+		}
+		if len(assigned) == 0 {
+			r.Undecided("shape:planned-kind-generated|"+bk, c.FnPos(bulk), "no constant kind found that the planner assigns to a change")
 		}
 		for _, kc := range constsOfType(c, ct) {
 			if !assigned[kc.val] {
